@@ -200,7 +200,62 @@ def spec_chrom(case, chrom):
             "phased": sum(len(v) for v in big.values()), "singletons": sum(1 for v in sets.values() if len(v) == 1),
             "blocks": len(big), "phased_snvs": sum(s for v in big.values() for _, s in v),
             "block_list": sorted((k, min(p for p, _ in v) + 1, max(p for p, _ in v) + 1, len(v)) for k, v in sets.items()),
-            "union_span": union, "gtf": runs}
+            "union_span": union, "gtf": runs, "sizes": sorted(len(v) for v in big.values()),
+            "lengths": spec_piece_lengths([sorted(p for p, _ in v) for v in big.values()])}
+
+
+def spec_piece_lengths(sets):
+    """independent: the lengths of the non-overlapping pieces of the phase sets (sorted position lists, >= 2 positions each)
+    of ONE chromosome.  Going from left to right: a set that reaches into the next one (by leftmost position) is cut down to
+    its positions before the start of that set (a piece if >= 2 positions remain) and its positions after the end of that set
+    (which stay in play as a set of their own if >= 2 remain)."""
+    todo = sorted(sets)
+    out = []
+    while todo:
+        cur, todo = todo[0], todo[1:]
+        if todo and cur[-1] > todo[0][0]:
+            nxt = todo[0]
+            before = [p for p in cur if p < nxt[0]]
+            after = [p for p in cur if p > nxt[-1]]
+            if len(after) > 1:
+                todo = sorted(todo + [after])
+            cur = before
+        if len(cur) > 1:
+            out.append(cur[-1] - cur[0])
+    return sorted(out)
+
+
+def spec_median(l):
+    n = len(l)
+    return l[n // 2] if n % 2 else (l[n // 2 - 1] + l[n // 2]) / 2
+
+
+def spec_columns(counts, sizes, lengths):
+    """independent: every numeric column of a row (except block_n50) from the integer counts, the sorted sizes of the phase
+    sets with >= 2 variants and the sorted lengths of their non-overlapping pieces"""
+    nan = float("nan")
+    e = {k: counts[k] for k in ("variants", "unphased", "singletons", "heterozygous_variants", "heterozygous_snvs")}
+    if sizes:
+        e.update(phased=sum(sizes), blocks=len(sizes), phased_snvs=counts["phased_snvs"],
+                 variant_per_block_median=spec_median(sizes), variant_per_block_avg=sum(sizes) / len(sizes),
+                 variant_per_block_min=min(sizes), variant_per_block_max=max(sizes), variant_per_block_sum=sum(sizes),
+                 phased_fraction=sum(sizes) / counts["heterozygous_variants"] if counts["heterozygous_variants"] else nan,
+                 phased_snvs_fraction=counts["phased_snvs"] / counts["heterozygous_snvs"] if counts["heterozygous_snvs"] else nan)
+        if lengths:
+            e.update(bp_per_block_median=spec_median(lengths), bp_per_block_avg=sum(lengths) / len(lengths),
+                     bp_per_block_min=min(lengths), bp_per_block_max=max(lengths), bp_per_block_sum=sum(lengths))
+    else:
+        e.update(phased=0, blocks=0, phased_snvs=0, variant_per_block_median=nan, variant_per_block_avg=nan,
+                 variant_per_block_min=0, variant_per_block_max=0, variant_per_block_sum=0, bp_per_block_median=nan,
+                 bp_per_block_avg=nan, bp_per_block_min=0, bp_per_block_max=0, bp_per_block_sum=0, phased_fraction=0.0,
+                 phased_snvs_fraction=0.0)
+    return e
+
+
+def column_key(k, all_row):
+    group = "lengths" if k.startswith("bp_per_block") else "sizes" if k.startswith("variant_per_block") else \
+        "fractions" if k.endswith("fraction") else "counts"
+    return ("all-row-" if all_row else "row-") + group
 
 
 def parse_tsv(path):
@@ -339,6 +394,7 @@ def _run(ctx, wd):
         n = (56 if ctx.quick else 500) * ctx.scale
         for i in range(n):
             cases.append(G.gen_case(rng, scale=1 if ctx.quick else rng.choice([1, 2, 4]), exotic=(i % 2 == 1), boundary=(i % 4 >= 2)))
+            ctx.dist("twin_chromosomes", ",".join(sorted({m for _, m in cases[-1]["twins"].values()})) or "none")
 
     # input files (pysam.tabix_index is not known to be thread-safe: sequentially)
     paths = []
@@ -506,6 +562,10 @@ def judge(ctx, case, res):
             ctx.dist("block_n50", "nan" if r["block_n50"] == "nan" else ("0" if float(r["block_n50"]) == 0 else "positive"))
         if v["bp_per_block_sum"] > s["union_span"] and not degenerate(c):
             fail(f"{c}: sum of block lengths {v['bp_per_block_sum']} exceeds the covered span {s['union_span']}", "length-sum-exceeds-span")
+        if not degenerate(c):
+            for k, want in spec_columns(s, s["sizes"], s["lengths"]).items():
+                if column_key(k, False) != "row-counts" and not same(fnum(r[k]), float(want)):
+                    fail(f"{c}: {k} = {r[k]}, computed independently from the phase sets of the file: {want}", column_key(k, False))
     if len(set(reported)) >= 2 and not all_rows:
         fail("no ALL row although several chromosomes were processed", "all-row-missing")
     if all_rows:
@@ -513,6 +573,20 @@ def judge(ctx, case, res):
             tot = sum(int(r[k]) for r in rows_list)
             if int(all_rows[0][k]) != tot:
                 fail(f"ALL.{k} = {all_rows[0][k]} != sum of the chromosome rows {tot}", "all-row-not-sum")
+    # the ALL row = the same computation over the whole file: every numeric column (block_n50 is compared with the model), from
+    # the counts, the phase-set sizes and the piece lengths of all reported chromosomes together
+    if all_rows and reported == expected and len(set(reported)) == len(reported) and not any(degenerate(c) for c in reported):
+        tot = {k: sum(specs[c][k] for c in reported) for k in ("variants", "unphased", "singletons", "heterozygous_variants",
+                                                               "heterozygous_snvs", "phased_snvs")}
+        exp = spec_columns(tot, sorted(x for c in reported for x in specs[c]["sizes"]),
+                           sorted(x for c in reported for x in specs[c]["lengths"]))
+        for k, want in exp.items():
+            if not same(fnum(all_rows[0][k]), float(want)):
+                fail(f"ALL.{k} = {all_rows[0][k]}, computed independently over the reported chromosomes {reported} of the file: "
+                     f"{want}", column_key(k, True))
+        spans = [set((a, b) for _, a, b, n in specs[c]["block_list"] if n > 1) for c in reported]
+        ctx.dist("coordinate_identical_blocks_on_two_chromosomes",
+                 any(spans[i] & spans[j] for i in range(len(spans)) for j in range(i)))
     # ---- the human-readable report says the same as the TSV
     sections = parse_stdout(res["out"])
     if [n for n, _ in sections] != [r["chromosome"] for r in res["tsv"]]:
